@@ -754,7 +754,9 @@ class Hist(object):
         if "R" in spec:      # id pack of one of the peer's objects
             e = pr.pool[not side][spec["R"]]
             k = get_id_pack(e.obj)
-            fok = (k[0] in netref.builtin_classes_cache) or (k in pr.conn[not side]._local_objects._dict)
+            # _netref_factory needs no answer from the owner for builtin names and for classes it has already proxied
+            fok = (k[0] in netref.builtin_classes_cache) or (k in pr.conn[not side]._local_objects._dict) \
+                or (k[2] == 0 and k in pr.conn[side]._netref_classes_cache)
             return k, self.idp_model[canon_sx(e.sx)], fok
         if "K" in spec:      # a key nobody has
             n, a, b = spec["K"]
